@@ -126,9 +126,20 @@ func c20Workspace(src string) *core.Workspace {
 	// two paths with the same text and the same function NAMES but different signatures:
 	// whatever is remembered about a function must not travel between paths
 	return &core.Workspace{Paths: map[string]*core.PathSpec{
-		"/sig":  {Schema: root, Files: map[string]string{"main.tf": src}, Functions: gen.Functions()},
+		"/sig":  {Schema: root, Files: map[string]string{"main.tf": src}, Functions: copiedFunctions(gen.Functions())},
 		"/sig2": {Schema: root, Files: map[string]string{"main.tf": src}, Functions: c20OtherFunctions()},
 	}, Order: []string{"/sig", "/sig2"}}
+}
+
+// copiedFunctions hands every signature over as a Copy() of itself, the way a client
+// that keeps one base set and gives each path its own copy does.
+func copiedFunctions(in map[string]schema.FunctionSignature) map[string]schema.FunctionSignature {
+	out := make(map[string]schema.FunctionSignature, len(in))
+	for k, v := range in {
+		v := v
+		out[k] = *v.Copy()
+	}
+	return out
 }
 
 // c20OtherFunctions declares the functions of gen.Functions() with other
@@ -258,7 +269,8 @@ func (p c20) checkFile(unit int, fseed int64, src string, exact bool, only int, 
 		offs = []int{only}
 	}
 	one := func(path string, off int) {
-		funcs := env.PathCtx[path].Functions
+		// the model reads the signatures as they were declared, not the copies handed to the library
+		funcs := map[string]map[string]schema.FunctionSignature{"/sig": gen.Functions(), "/sig2": c20OtherFunctions()}[path]
 		pos, ok := tab.At(off)
 		if !ok {
 			return
